@@ -398,17 +398,17 @@ Proof.
     split; [rewrite <- app_assoc; reflexivity|split; reflexivity].
 Qed.
 
-Lemma parse_start_states_printed : forall pe st i names pads pre re,
+Lemma parse_start_states_printed : forall pe iw st i names pads pre re,
   forallb is_start_state_name names = true -> states_numbered names (start_states st) ->
   (forall n, In n pre -> In n names) -> pads_ok pads = true ->
   (pre = [] -> starts_with [c_lt] re = false) ->
-  parse_start_states pe repaired st i (print_prefix pads pre ++ re) =
-  ROk (map (fun n => index_of n names) pre, map_escapes pe re).
+  parse_start_states pe iw repaired st i (print_prefix pads pre ++ re) =
+  ROk (map (fun n => index_of n names) pre, map_escapes iw pe re).
 Proof.
-  intros pe st i names pads pre re Hv Hst Hin Hp Hre. unfold parse_start_states.
+  intros pe iw st i names pads pre re Hv Hst Hin Hp Hre. unfold parse_start_states.
   destruct pre as [|n ns].
-  - cbn [print_prefix app]. rewrite (Hre eq_refl). cbn [negb]. cbn [fix_dangling repaired].
-    rewrite unescape_fixed_spec. reflexivity.
+  - cbn [print_prefix app]. rewrite (Hre eq_refl). cbn [negb]. cbn [fix_dangling fix_iw repaired andb].
+    rewrite unescape_iw_spec. reflexivity.
   - destruct (pre_pieces_facts c_gt names (n :: ns) pads eq_refl eq_refl Hv Hin Hp) as [G1 _].
     destruct (pre_pieces_facts c_comma names (n :: ns) pads eq_refl eq_refl Hv Hin Hp) as [C1 [_ C3]].
     set (pieces := pre_pieces pads (n :: ns)) in *.
@@ -428,8 +428,8 @@ Proof.
     rewrite (states_by_name_numbered st names i (n :: ns) Hst Hin). cbn [rbind].
     replace ([c_lt] ++ join_comma pieces ++ c_gt :: re) with ((c_lt :: join_comma pieces ++ [c_gt]) ++ re)
       by (cbn [app]; rewrite <- app_assoc; reflexivity).
-    rewrite slice_from_app' by (blen; lia). cbn [lift rbind]. cbn [fix_prefix_unescape fix_dangling repaired].
-    rewrite unescape_fixed_spec. reflexivity.
+    rewrite slice_from_app' by (blen; lia). cbn [lift rbind]. cbn [fix_prefix_unescape fix_dangling fix_iw repaired andb].
+    rewrite unescape_iw_spec. reflexivity.
 Qed.
 (* ---- one rule line ------------------------------------------------------------------------------------ *)
 Lemma no_nl_app : forall a b, no_nl a = true -> no_nl b = true -> no_nl (a ++ b) = true.
@@ -445,7 +445,7 @@ Qed.
 
 Lemma rule_line_roundtrip : rule_line_roundtrip_stmt.
 Proof.
-  intros awc pe last src pre rest st errs names rl r Hsrc Hend Hr Hrl Hv Hst Hdup.
+  intros awc pe iw last src pre rest st errs names rl r Hsrc Hend Hr Hrl Hv Hst Hdup.
   (* the hypotheses, unpacked *)
   unfold wf_arule in Hr.
   apply andb_prop in Hr. destruct Hr as [Hr Hre]. apply andb_prop in Hr. destruct Hr as [Hr Hnm].
@@ -502,8 +502,8 @@ Proof.
   { unfold body. apply slice_to_app. }
   assert (Hre1 : trim_end_unescaped A = Done (P ++ a_re r)).
   { unfold A. apply trim_end_unescaped_printed; [exact HPend|exact Htrim|apply all_iws_ws; exact Hblanks]. }
-  assert (Hps : parse_start_states pe repaired st i (P ++ a_re r) =
-                ROk (map (fun n => index_of n names) (a_pre r), map_escapes pe (a_re r))).
+  assert (Hps : parse_start_states pe iw repaired st i (P ++ a_re r) =
+                ROk (map (fun n => index_of n names) (a_pre r), map_escapes iw pe (a_re r))).
   { unfold P. apply parse_start_states_printed; assumption. }
   assert (Hlen : i + byte_len (body ++ rl_trail rl) = byte_len (pre ++ body ++ rl_trail rl)).
   { unfold i. rewrite (byte_len_app pre). reflexivity. }
@@ -529,7 +529,7 @@ Qed.
 (* the span of a named rule selects the name in the text *)
 Lemma rule_line_span : rule_line_span_stmt.
 Proof.
-  intros pe names pre rest rl r n En. unfold selects, rule_of. cbn [r_name_span]. rewrite En. cbn [fst snd].
+  intros pe iw names pre rest rl r n En. unfold selects, rule_of. cbn [r_name_span]. rewrite En. cbn [fst snd].
   unfold print_rline. rewrite En. cbn [print_name].
   replace (pre ++ (rline_head rl r ++ ([qchar (rl_quote rl)] ++ n ++ [qchar (rl_quote rl)]) ++ rl_trail rl) ++ rest)
     with ((pre ++ rline_head rl r ++ [qchar (rl_quote rl)]) ++ n ++ (qchar (rl_quote rl) :: rl_trail rl ++ rest))
